@@ -65,6 +65,7 @@ Proof.
     destruct (ppath_eqb p (pf_rel f)); [apply IH; assumption|].
     destruct (contained (c_var c) (w_fs w) f p) as [[|]|]; try (intros E; inversion E; subst; assumption).
     destruct (parents_contained (w_fs w) f p) as [[|]|]; try (intros E; inversion E; subst; assumption).
+    destruct (source_contained (w_fs w) f) as [[|]|]; try (intros E; inversion E; subst; assumption).
     destruct (renamer c w r0 (pf_rel f) p false) as [w1 [e1|]] eqn:R;
       pose proof (renamer_untouched _ _ _ _ _ _ _ _ _ D U R) as U1.
     + destruct (is_file_exists e1); [apply IH; assumption | intros E; inversion E; subst; assumption].
